@@ -46,6 +46,8 @@ var c16SourceFaults = map[string][]string{
 	"malformed-affix": {"##!$ )", "##!^ (foo", "##!$ a)", "##!^ (?i", "##!^ (", "##!$ ]x)", "##!^ x{2,1}"},
 	// a directory sits where the include / exclude file is expected (it can be opened, reading it fails)
 	"include-is-directory":     {"##!> include dirinc", "##!> include-except dirinc exc1", "##!> include-except inc1 dirinc", "##!> include dirinc -- a b"},
+	// include files nested one level deeper than the tool accepts, and a file that includes itself (twice)
+	"include-nesting-too-deep": {"##!> include deep001", "##!> include selfinc"},
 	"missing-include-absolute": {"##!> include /nonexistent/dir/birds", "##!> include-except /nonexistent/a exc1", "##!> include-except inc1 /nonexistent/x", "##!> include /nonexistent/dir/birds.ra", "##!> include /nonexistent/dir/birds -- a b"},
 }
 
@@ -176,6 +178,16 @@ func c16Check(env *core.Env, cc core.Case) core.Verdict {
 		case "bad-argument":
 			arg = core.Pick(rand.New(rand.NewSource(int64(idx))), "93210", "932100-chain256", "932100x", "932100-chain")
 		}
+	}
+	if c.Fault == "include-nesting-too-deep" {
+		for k := 1; k <= 101; k++ {
+			text := fmt.Sprintf("deep%03dword\n", k)
+			if k < 101 {
+				text += fmt.Sprintf("##!> include deep%03d\n", k+1)
+			}
+			tree[fmt.Sprintf("regex-assembly/include/deep%03d.ra", k)] = text
+		}
+		tree["regex-assembly/include/selfinc.ra"] = "selfword\n##!> include selfinc\n##!> include selfinc\n"
 	}
 	if c.Fault == "include-is-directory" {
 		tree["regex-assembly/include/dirinc.ra/"] = ""
